@@ -31,12 +31,23 @@ class Intern:
         return self.ids.setdefault(v, len(self.ids) + 100)
 
 
-def col_values(arr, intern):
-    """Canonical column: None for masked entries, interned id otherwise."""
+def col_values(arr, intern, covered=None):
+    """Canonical column: interned id of each entry; a masked entry is None on a row no context covers and the id of
+    "a masked source value" on a covered row (the stream was fed a masked array)."""
     a = np.ma.asarray(arr)
     mask = np.ma.getmaskarray(a).reshape(-1)
     data = np.ma.getdata(a).reshape(-1)
-    return [None if m else intern(v) for v, m in zip(data.tolist() if data.dtype.kind != "M" else list(data), mask)]
+    cov = covered if covered is not None and len(covered) == len(mask) else [False] * len(mask)
+    return [(intern("masked-source-value") if c else None) if m else intern(v)
+            for v, m, c in zip(data.tolist() if data.dtype.kind != "M" else list(data), mask, cov)]
+
+
+def wire_vals(arr, intern):
+    a = np.ma.asarray(arr)
+    mask = np.ma.getmaskarray(a).reshape(-1)
+    data = np.ma.getdata(a).reshape(-1)
+    return [intern("masked-source-value") if m else intern(v)
+            for v, m in zip(list(data) if data.dtype.kind == "M" else data.tolist(), mask)]
 
 
 def synth_contexts(rng, n):
@@ -95,7 +106,7 @@ def wire_contexts(ctxs, intern):
                 arr = getattr(r, c)
                 if arr is None or np.asarray(arr).size == 0:
                     continue       # absent axis: nothing to put back
-                cols[c] = {"mask": mask, "vals": [intern(v) for v in (list(arr) if np.asarray(arr).dtype.kind == "M" else np.asarray(arr).tolist())]}
+                cols[c] = {"mask": mask, "vals": wire_vals(arr, intern)}
             out.append({"key": f"{r.stream_id}:{tr.package}.{tr.test}", "cols": cols})
     return out
 
@@ -113,21 +124,52 @@ def freeze(ctxs):
     return out
 
 
-def observe(ctxs, intern, present_cols):
+def scribble(lst, dct):
+    """Overwrite, in place, every array a collect handed out (what a caller applying manual overrides does)."""
+    def junk(a, v):
+        try:
+            if a is not None and np.ma.asarray(a).size:
+                a[...] = v
+        except (ValueError, TypeError):
+            pass        # read-only or not assignable: nothing was changed
+    for cr in lst:
+        junk(cr.results, 4)
+        for c in ("data", "zinp", "lat", "lon"):
+            junk(getattr(cr, c), -999.0)
+    for pk in dct.values():
+        for tests in pk.values():
+            for flags in tests.values():
+                junk(flags, 3)
+
+
+def observe(ctxs, intern, present_cols, recollect=False):
+    """Collected list and dict forms.  With `recollect`, the arrays of a first collect are overwritten in place and
+    the run is collected again: the second collect must still report what the contexts produced."""
     try:
         with warnings.catch_warnings():
             warnings.simplefilter("ignore")
-            lst = collect_results(list(ctxs), how="list")
-            dct = collect_results(list(ctxs), how="dict")
+            ctxs = list(ctxs)
+            lst = collect_results(ctxs, how="list")
+            dct = collect_results(ctxs, how="dict")
+            if recollect:
+                scribble(lst, dct)
+                lst = collect_results(ctxs, how="list")
+                dct = collect_results(ctxs, how="dict")
     except Exception as e:  # noqa: BLE001
         return None, f"{type(e).__name__}: {e}"
+    covered = {}
+    for r in ctxs:
+        m = np.asarray(np.ma.getdata(r.subset_indexes)).reshape(-1).astype(bool)
+        for tr in r.results:
+            k = f"{r.stream_id}:{tr.package}.{tr.test}"
+            covered[k] = m if k not in covered or len(covered[k]) != len(m) else (covered[k] | m)
     ol = []
     for cr in lst:
         cols = {"results": [None if m else int(v) for v, m in zip(np.ma.getdata(cr.results).reshape(-1).tolist(),
                                                                   np.ma.getmaskarray(cr.results).reshape(-1))]}
         for c in COLS:
             if c in present_cols.get(cr.hash_key, ()):
-                cols[c] = col_values(getattr(cr, c), intern)
+                cols[c] = col_values(getattr(cr, c), intern, covered.get(cr.hash_key))
         ol.append({"key": cr.hash_key, "cols": cols})
     od = []
     for sid, pk in dct.items():
@@ -145,7 +187,8 @@ def run(out: Outcome, drv):
     out.rule = ("(a) synthetic ContextResult sequences (0..9 rows; 1..4 disjoint windows incl. empty, all-covering, gapped and interleaved; "
                 "1..2 streams x 1..3 tests; with / without depth and position arrays; writable and read-only input arrays) collected in "
                 "list and dict form, in the generated order and in permuted orders (all permutations for <= 4 context results, 6 random "
-                "otherwise); (b) the same for sequences yielded by real PandasStream / NumpyStream / XarrayStream runs; judged by "
+                "otherwise), every third sequence collected a second time after the arrays of the first collect were overwritten in place; "
+                "(b) the same for sequences yielded by real PandasStream / NumpyStream / XarrayStream runs; judged by "
                 "IoosQc.C06.columnOk / dictOk and by equality of the outcome across orders; non-trivial = some row uncovered or >= 2 contexts")
     rng = gen.rng_for(out.seed, "C06")
     cases = []
@@ -185,8 +228,11 @@ def run(out: Outcome, drv):
         group = object()
         for order in orders:
             seq = [ctxs[i] for i in order]
-            obs, err = observe(seq, intern, present)
+            recollect = (len(reqs) % 3 == 2)
+            obs, err = observe(seq, intern, present, recollect)
             case = {"source": src, "n": n, "order": order, "contexts": wired, "desc": desc}
+            if recollect:
+                case["collected_again_after_overwriting_the_first_collect"] = True
             if err is not None:
                 out.record(case, True, [f"src:{src}", "error"])
                 out.violation(f"{WHAT}: collect_results raised {err}", {"case": jsonable(case), "observed": err})
